@@ -31,11 +31,13 @@ const (
 )
 
 type Program struct {
-	Repo  string
-	Fset  *token.FileSet
-	Roots []*packages.Package
-	All   map[string]*packages.Package
-	SSA   *ssa.Program
+	Repo string
+	Fset *token.FileSet
+	// Renamed: anchors resolved to a near-miss name (spelling fix), anchor -> actual name
+	Renamed map[string]string
+	Roots   []*packages.Package
+	All     map[string]*packages.Package
+	SSA     *ssa.Program
 
 	own      map[*types.Package]bool
 	declOf   map[*types.Func]*ast.FuncDecl
@@ -184,12 +186,89 @@ func (p *Program) Method(pkg, typ, name string) *types.Func {
 			}
 		}
 	}
+	// rename tolerance (own types only): exactly one method whose name is a near miss (spelling fix such
+	// as Dispacher -> Dispatcher); the rules judge the function by its structure, not by its name
+	if p.IsOwn(n.Obj().Pkg()) {
+		var cand *types.Func
+		k := 0
+		for i := 0; i < n.NumMethods(); i++ {
+			if m := n.Method(i); nearName(m.Name(), name) {
+				cand = m
+				k++
+			}
+		}
+		if k == 1 {
+			p.noteRename(pkg+"."+typ+"."+name, cand.Name())
+			return cand
+		}
+	}
 	return nil
 }
 
 func (p *Program) Func(pkg, name string) *types.Func {
-	f, _ := p.Obj(pkg, name).(*types.Func)
-	return f
+	if f, ok := p.Obj(pkg, name).(*types.Func); ok {
+		return f
+	}
+	pk := p.Pkg(pkg)
+	if pk == nil || pk.Types == nil || !p.IsOwn(pk.Types) {
+		return nil
+	}
+	var cand *types.Func
+	k := 0
+	for _, n := range pk.Types.Scope().Names() {
+		if f, ok := pk.Types.Scope().Lookup(n).(*types.Func); ok && nearName(n, name) {
+			cand = f
+			k++
+		}
+	}
+	if k == 1 {
+		p.noteRename(pkg+"."+name, cand.Name())
+		return cand
+	}
+	return nil
+}
+
+// Renamed lists anchors that were resolved to a near-miss name.
+func (p *Program) noteRename(anchor, actual string) {
+	if p.Renamed == nil {
+		p.Renamed = map[string]string{}
+	}
+	p.Renamed[anchor] = actual
+}
+
+// nearName: a and b differ by an edit distance of at most 2 (and are long enough for that to be a
+// spelling variant rather than another word).
+func nearName(a, b string) bool {
+	if a == b || len(a) < 8 || len(b) < 8 {
+		return false
+	}
+	la, lb := len(a), len(b)
+	if la-lb > 2 || lb-la > 2 {
+		return false
+	}
+	prev := make([]int, lb+1)
+	cur := make([]int, lb+1)
+	for j := range prev {
+		prev[j] = j
+	}
+	for i := 1; i <= la; i++ {
+		cur[0] = i
+		for j := 1; j <= lb; j++ {
+			c := prev[j-1]
+			if a[i-1] != b[j-1] {
+				c++
+			}
+			if prev[j]+1 < c {
+				c = prev[j] + 1
+			}
+			if cur[j-1]+1 < c {
+				c = cur[j-1] + 1
+			}
+			cur[j] = c
+		}
+		prev, cur = cur, prev
+	}
+	return prev[lb] <= 2
 }
 
 // Field returns the field `name` of the struct type pkg.typ.
